@@ -574,6 +574,74 @@ pub fn random_term(rng: &mut Rng, d: usize, pool: &Pool) -> T {
     }
 }
 
+/// Loops of loops: the flattening rule (R^[a,b])^[c,d] -> R^[ac,bd] is only sound when the
+/// product of the ranges is exact; inner and outer ranges cover the gap criterion's cases.
+pub fn loop_family(pool: &Pool) -> Vec<T> {
+    let bodies = vec![T::Chr(pool.a), T::Rng(pool.a, pool.b), T::Str(vec![pool.a, pool.b]), T::Opt(b(&T::Chr(pool.a)))];
+    let inner: Vec<(u32, Option<u32>)> = vec![
+        (0, Some(1)), (1, Some(2)), (2, Some(2)), (2, Some(3)), (3, Some(3)), (3, Some(4)), (4, Some(6)), (5, Some(7)),
+        (0, None), (1, None), (2, None), (3, None),
+    ];
+    let outer: Vec<(u32, Option<u32>)> = vec![
+        (0, Some(1)), (0, Some(2)), (1, Some(2)), (2, Some(2)), (2, Some(3)), (1, Some(3)), (3, Some(4)),
+        (0, None), (1, None), (2, None), (3, None),
+    ];
+    let mut v = vec![];
+    for (bi, body) in bodies.iter().enumerate() {
+        for &(i, j) in &inner {
+            for &(k, l) in &outer {
+                // the heavier bodies only with the smaller ranges
+                if bi >= 2 && (i > 3 || k > 2) {
+                    continue;
+                }
+                v.push(T::Loop(Box::new(T::Loop(b(body), i, j)), k, l));
+            }
+        }
+    }
+    // through the SMT-LIB-named constructors as well
+    let a = T::Chr(pool.a);
+    for n in 2..=4u32 {
+        for (lo, hi) in [(2u32, 3u32), (1, 2), (2, 4), (3, 3)] {
+            v.push(T::SmtLoop(Box::new(T::Pow(b(&a), n)), lo, hi));
+            v.push(T::Pow(Box::new(T::SmtLoop(b(&a), lo, hi)), n));
+        }
+        v.push(T::Star(Box::new(T::Pow(b(&a), n))));
+        v.push(T::Plus(Box::new(T::SmtLoop(b(&a), n, n + 1))));
+    }
+    v
+}
+
+/// Unions of terms whose leading ranges are adjacent and start at character 0, created in every
+/// order (operand order = creation order = id order): exercises the merged derivative classes
+/// and their complement witness.
+pub fn adjacent_range_family(pool: &Pool) -> Vec<T> {
+    let cuts = [0u32, 48, 58, 65, pool.a.max(66)];
+    let mut ranges: Vec<T> = vec![];
+    for w in cuts.windows(2) {
+        ranges.push(T::Cat2(Box::new(T::Rng(w[0], w[1] - 1)), b(&T::All)));
+    }
+    ranges.push(T::Cat2(Box::new(T::Rng(cuts[4], MAX_CHAR)), b(&T::All)));
+    let n = ranges.len();
+    let mut v = vec![];
+    for i in 0..n {
+        for j in 0..n {
+            for k in 0..n {
+                if i == j || j == k || i == k {
+                    continue;
+                }
+                let ops = vec![ranges[i].clone(), ranges[j].clone(), ranges[k].clone()];
+                v.push(T::Not(Box::new(T::AltL(ops.clone()))));
+                let mut with_eps = ops.clone();
+                with_eps.push(T::Eps);
+                v.push(T::Not(Box::new(T::AltL(with_eps))));
+                v.push(T::AltL(ops.clone()));
+                v.push(T::AndL(ops.iter().map(|x| T::Not(b(x))).collect()));
+            }
+        }
+    }
+    v
+}
+
 /// Unions / intersections whose operands are related by inclusion (directly or under complement):
 /// the constructors prune subsumed operands with the syntactic inclusion test, and derivatives of
 /// such terms create new unions of the same kind.
